@@ -6,6 +6,6 @@ CONSTANTS
 INIT TInit
 NEXT TNext
 CONSTRAINT Track
-INVARIANTS TypeOK Inv_Handshake Inv_WellFormedOut Inv_Delivered Inv_PingPong Inv_Close
+INVARIANTS Inv_Handshake Inv_WellFormedOut Inv_Delivered Inv_PingPong Inv_Close
 POSTCONDITION Accepted
 CHECK_DEADLOCK FALSE
